@@ -74,6 +74,8 @@ type Node struct {
 	Bits  []int   `json:"bits"`   // actual bits of a raw leaf / gap value (only when requested and small)
 	HasB  bool    `json:"hasb"`
 	Plink bool    `json:"plink"` // the real Parent pointer is the node it is a child of
+	Fmt   bool    `json:"fmt"`   // Format != nil (a format root in the sense of format_root)
+	Raw   bool    `json:"raw"`   // a raw-bits scalar (scalar.BitBuf) without symbolic value
 	V     *decode.Value `json:"-"`
 }
 
@@ -139,6 +141,25 @@ func (r *runner) run(d *decode.D, ops []op) {
 	}
 }
 
+// InputBytes returns the input file RunProg would decode for (p, seed).
+func InputBytes(p Prog, seed int64) []byte {
+	r := &runner{rng: rand.New(rand.NewSource(seed))}
+	b := make([]byte, (p.Len+7)/8)
+	r.rng.Read(b)
+	return b
+}
+
+// DecodeFn returns a format function that runs p exactly as RunProg does (same nested buffers for the same seed).
+func DecodeFn(p Prog, seed int64) func(d *decode.D) any {
+	return func(d *decode.D) any {
+		r := &runner{rng: rand.New(rand.NewSource(seed))}
+		_ = r.buf(p.Len) // keep the random stream aligned with RunProg
+		ops, _ := nest(p.Prog, 0)
+		r.run(d, ops)
+		return nil
+	}
+}
+
 // RunProg decodes a random buffer of p.Len bits with the program as its format.
 // Returns the (possibly partial) tree; nil if decode returned no value. A Go panic escaping
 // decode.Decode is returned as panicMsg (that is a C06-class fault, reported by the caller).
@@ -199,6 +220,10 @@ func Flatten(root *decode.Value, withBits bool, maxBits int64) []Node {
 		n := Node{Name: v.Name, Kind: kindOf(v), Par: par, Start: v.Range.Start, Len: v.Range.Len,
 			Root: v.IsRoot, Err: v.Err != nil, Idx: v.Index, Kids: []int{}, Bits: []int{}, V: v}
 		n.Plink = par == 0 || v.Parent == nodes[par-1].V
+		n.Fmt = v.Format != nil
+		if bb, ok := v.V.(*scalar.BitBuf); ok && bb.Sym == nil {
+			n.Raw = true // raw bits rendered as bits (a symbolic mapping would be displayed instead)
+		}
 		if v.IsRoot {
 			if v.RootReader != nil {
 				if l, err := bitLen(v.RootReader); err == nil {
